@@ -151,7 +151,9 @@ theorem AccInv.ext {A : GA} {w w' : World} (hi : AccInv A w) (h : ObsEq w w') : 
     exact ⟨fun hex => (h1 hex).congr (fun s c _ => usedBit_congr (h.conns p s) c), h2⟩
   · intro s S hS
     rw [h.subs] at hS
-    exact hi.subs s S hS
+    obtain ⟨h1, h2, h3⟩ := hi.subs s S hS
+    refine ⟨h1, h2, fun ha x hx => ?_⟩
+    rw [h.pubs]; exact h3 ha x hx
   · intro p s cn hcn P S hP hS
     rw [h.conns] at hcn; rw [h.pubs] at hP; rw [h.subs] at hS; rw [h.cfg]
     exact hi.conns p s cn hcn P S hP hS
